@@ -359,13 +359,13 @@ def session(ctx, exe, r, nexpr, nquery, have_drv, stats):
         llines = ["RESET"] + ["T %d %s" % (k, tree_sx[k]) for k in trees] + ops
         rc2, out2, err2, _ = core.run_exe(core.lean_exe("drv_c19"), [], stdin_text="\n".join(llines) + "\n", timeout=600)
         lo_all = out2.split("\n")
+        res["dis"] = []
         for k, l in zip(trees, lo_all[1:1 + len(trees)]):
             if k < ntrees and l != "ok parseBuilt=true noNaN=true":
                 res["dis"].append({"op": "T %d" % k, "impl": "a tree produced by the parser", "model": l,
                                    "trees": {str(k): tree_sx[k][:1500]}})
         stats["hypotheses_checked"] = stats.get("hypotheses_checked", 0) + ntrees
         lo = lo_all[1 + len(trees):]
-        res["dis"] = []
         for idx, op in enumerate(ops):
             a = impl_ops[idx] if idx < len(impl_ops) else "<missing>"
             bq = lo[idx] if idx < len(lo) else "<missing>"
@@ -421,10 +421,18 @@ def run(ctx):
     by_key = {}
     for f, res in fails:
         p = f.split(" ", 3)
-        key = "%s:%s" % (p[1], p[2]) if len(p) > 2 else f
+        law, shape = p[1], (p[2] if len(p) > 2 else "")
+        if law == "equal_implies_same_text":
+            key = "%s:%s" % (law, shape)                      # constant-type:B/I, structure...
+        elif law == "equal_distinguishes":
+            key = "%s:%s" % (law, shape.split(":")[0])         # kind / order / symbol / constant
+        elif law == "arity_accessible":
+            key = "%s:%s" % (law, shape)                      # the kind whose get_size is wrong
+        else:
+            key = law                                         # clone_*, subst_*, mutate_independent, equal_refl/symm/trans
         by_key.setdefault(key, []).append((f, res))
     for key, fl in sorted(by_key.items()):
-        f, res = fl[0]
+        f, res = min(fl, key=lambda x: len(x[0]))              # the smallest failing tree as witness
         ctx.finding(key, "expression law %s fails on the real expression_t API: %s" % (key.split(":")[0], f[5:400]),
                     {"entry": "parse_XML_buffer + parse_XTA(S_EXPRESSION)/parseProperty, then the public expression_t API (harness/c19.cpp LAWS)",
                      "failing_line": f, "more": [x[0][:300] for x in fl[1:4]], "count": len(fl), "xml": res["xml"],
